@@ -8,6 +8,7 @@ import (
 
 	"verif/explore"
 	"verif/grammar"
+	"verif/lexref"
 	"verif/oracle"
 )
 
@@ -58,6 +59,21 @@ func checkRoundTrip(e *Entry, s string, res ParseResult) map[string]string {
 	if oracle.IsNilNode(t) {
 		return viol
 	}
+	// every identifier node prints, on its own, as one identifier token naming it
+	for _, v := range oracle.Preorder(t) {
+		id, isIdent := v.Node.(*ast.Ident)
+		if !isIdent || id == nil {
+			continue
+		}
+		q, ok := safeSQL(id)
+		if !ok {
+			continue
+		}
+		if toks, err := oracle.ImplLex(q); err != nil || len(toks) != 1 || toks[0].Kind != "<ident>" || toks[0].AsString != id.Name {
+			viol["C01/ident-sql-not-that-identifier"] = fmt.Sprintf("%s(%q): the Ident %q at %s prints as %q, which does not lex as that one identifier", e.Name, s, id.Name, v.Path, q)
+			break
+		}
+	}
 	s1, ok := safeSQL(t)
 	if !ok {
 		return viol // C04
@@ -85,7 +101,7 @@ func checkRoundTrip(e *Entry, s string, res ParseResult) map[string]string {
 
 // C01: parse -> unparse -> parse is stable.
 func C01(r *explore.Run) {
-	r.Rule = "every accepted input among: sentences of G within the deviation bound (specific entry point and ParseStatement), S3 token strings (4 entry points per alphabet) and corpus files; oracle: SQL() re-parses without error to a tree equal up to position values (R4) and SQL() is a fixed point; " +
+	r.Rule = "every accepted input among: sentences of G within the deviation bound (specific entry point and ParseStatement), S3 token strings (4 entry points per alphabet), corpus files and keyword-replacement neighbours of sentences of G; oracle: SQL() re-parses without error to a tree equal up to position values (R4) and SQL() is a fixed point; " +
 		"non-trivial = accepted input whose tree has >=2 nodes; distinct by (entry point, tree shape)"
 	r.Assume = []string{"R4 compares every exported field, token.Pos only by validity"}
 	body := func(c *explore.Ctx, e *Entry, s string) {
@@ -103,6 +119,11 @@ func C01(r *explore.Run) {
 	tokenSpaces(r, explore.Options{}, false, body)
 	corpusSpace(r, body)
 	grammarTreeSpace(r, 3, body)
+	// accepted inputs next to G: keyword replacements
+	keywordReplaceSpace(r, 2, body)
+	identReplaceSpace(r, 1, body)
+	reservedAsIdentSpace(r, body)
+	editSpaceMode(r, 1, "light", body)
 	// lists of sentences through the list entry points
 	grammarSpace(r, "S4/grammar-lists", 1, func(c *explore.Ctx, s *grammar.Sentence) {
 		if !isStatementKind(s.Kind) {
@@ -313,7 +334,7 @@ func C02(r *explore.Run) {
 	// accepted inputs outside G: token strings and corpus files against the generic token-preservation oracle
 	kept := func(c *explore.Ctx, e *Entry, s string) {
 		res := e.Call(s)
-		if res.Err != nil || res.Panic != nil {
+		if res.Err != nil || res.Panic != nil || !e.Single && len(res.Roots) == 0 {
 			return
 		}
 		c.Count("accepted_inputs", 1)
@@ -327,12 +348,44 @@ func C02(r *explore.Run) {
 	corpusSpace(r, kept)
 	// near-valid inputs: every keyword of every sentence replaced by each keyword that stands in an alternative
 	// somewhere in the grammar (a parser that accepts such a mixture must still print what was written)
-	kk := 2
-	if r.Tier == "thorough" {
-		kk = 3
+	keywordReplaceSpace(r, 2, kept)
+	identReplaceSpace(r, 1, kept)
+	reservedAsIdentSpace(r, kept)
+	editSpaceMode(r, 1, "light", kept)
+}
+
+// reservedAsIdentSpace: every reserved word, back-quoted, in every identifier role of a few small inputs.
+func reservedAsIdentSpace(r *explore.Run, body func(c *explore.Ctx, e *Entry, s string)) {
+	forms := []struct{ entry, pre, post string }{
+		{"ParseExpr", "", ""}, {"ParseExpr", "a.", ""}, {"ParseExpr", "", ".b"}, {"ParseExpr", "", "(1)"}, {"ParseExpr", "f(", " => 1)"},
+		{"ParseQuery", "SELECT 1 AS ", ""}, {"ParseQuery", "SELECT * FROM ", ""}, {"ParseQuery", "SELECT * FROM t AS ", ""}, {"ParseQuery", "SELECT * FROM t ", ""},
+		{"ParseQuery", "WITH ", " AS (SELECT 1) SELECT 1"}, {"ParseQuery", "SELECT * FROM t@{FORCE_INDEX=", "}"},
+		{"ParseType", "STRUCT<", " INT64>"}, {"ParseType", "", ""}, {"ParseDDL", "CREATE TABLE ", " (a INT64) PRIMARY KEY (a)"},
+		{"ParseDDL", "CREATE TABLE t (", " INT64) PRIMARY KEY ()"}, {"ParseDDL", "CREATE INDEX ", " ON t (a)"}, {"ParseDDL", "ALTER TABLE t ADD COLUMN ", " INT64"},
+		{"ParseDDL", "DROP TABLE ", ""}, {"ParseDDL", "CREATE ROLE ", ""}, {"ParseDML", "INSERT INTO ", " (a) VALUES (1)"}, {"ParseDML", "INSERT INTO t (", ") VALUES (1)"},
+		{"ParseDML", "UPDATE t SET ", " = 1 WHERE TRUE"}, {"ParseDML", "DELETE FROM ", " WHERE TRUE"}, {"ParseStatement", "CALL ", "()"},
 	}
-	r.Explore(explore.Options{Space: "S5k/keyword-replacements", MaxDev: kk, SplitLen: 3,
-		Bound: fmt.Sprintf("every sentence of G with <=%d deviations x every keyword position x each of %d sibling keywords", kk, len(siblingKeywords))},
+	r.Explore(explore.Options{Space: "S2k/reserved-words-as-identifiers", MaxDev: -1, SplitLen: 1,
+		Bound: fmt.Sprintf("each of %d reserved words, back-quoted in upper and lower case, in %d identifier roles", len(lexref.Reserved), len(forms))}, func(c *explore.Ctx) {
+		w := lexref.Reserved[c.ChooseFree(len(lexref.Reserved))]
+		f := forms[c.ChooseFree(len(forms))]
+		if c.ChooseFree(2) == 1 {
+			w = strings.ToLower(w)
+		}
+		s := f.pre + "`" + w + "`" + f.post
+		c.Input(s)
+		body(c, EntryByName(f.entry), s)
+	})
+}
+
+// keywordReplaceSpace is S5k: every sentence of G with <=k deviations (k+1 in the thorough tier) with each of its
+// keyword / pseudo-keyword tokens replaced by each sibling keyword, through the sentence's own entry point.
+func keywordReplaceSpace(r *explore.Run, k int, body func(c *explore.Ctx, e *Entry, s string)) {
+	if r.Tier == "thorough" {
+		k++
+	}
+	r.Explore(explore.Options{Space: "S5k/keyword-replacements", MaxDev: k, SplitLen: 3,
+		Bound: fmt.Sprintf("every sentence of G with <=%d deviations x every keyword position x each of %d sibling keywords", k, len(siblingKeywords))},
 		func(c *explore.Ctx) {
 			root := grammar.Roots[c.ChooseFree(len(grammar.Roots))]
 			sent := grammar.Derive(c, root)
@@ -365,16 +418,8 @@ func C02(r *explore.Run) {
 						continue
 					}
 					parts[i] = w
-					x := text()
 					c.Count("edited_inputs", 1)
-					res := e.Call(x)
-					if res.Err == nil && res.Panic == nil {
-						c.Count("accepted_inputs", 1)
-						for sig, d := range checkTokensKept(e, x, res) {
-							c.Violation(sig, e.Name+": "+x, d)
-						}
-						c.Nontrivial(explore.Hash(x))
-					}
+					body(c, e, text())
 				}
 				parts[i] = t.Text
 			}
@@ -385,7 +430,52 @@ func C02(r *explore.Run) {
 // siblingKeywords are keywords that occur as alternatives of one another in the grammar.
 var siblingKeywords = strings.Fields("ALL DISTINCT UNION INTERSECT EXCEPT ASC DESC FIRST LAST LEFT RIGHT FULL CROSS HASH LOOKUP NOT NULL IF EXISTS OR AND REPLACE IGNORE UPDATE " +
 	"TRUE FALSE IN IS LIKE ROWS PERCENT BERNOULLI RESERVOIR STRUCT VALUE OFFSET ORDINAL SAFE_OFFSET STORED HIDDEN ASSERT_ROWS_MODIFIED CASCADE RESTRICT " +
-	"INVOKER DEFINER ADD DROP SET ALTER CREATE TABLE INDEX NEW_VALUES OLD_AND_NEW_VALUES UNIQUE NULL_FILTERED")
+	"INVOKER DEFINER ADD DROP SET ALTER CREATE TABLE INDEX NEW_VALUES OLD_AND_NEW_VALUES UNIQUE NULL_FILTERED ARRAY INTERVAL SELECT FROM AS WITH UNKNOWN")
+
+// identReplaceSpace is S5r: every sentence of G with <=k deviations with each of its user-identifier tokens
+// replaced by each reserved keyword (an input that is usually rejected, sometimes - keyword-named functions,
+// fields after a dot - accepted).
+func identReplaceSpace(r *explore.Run, k int, body func(c *explore.Ctx, e *Entry, s string)) {
+	if r.Tier == "thorough" {
+		k++
+	}
+	words := lexref.Reserved
+	r.Explore(explore.Options{Space: "S5r/identifier-to-reserved-word", MaxDev: k, SplitLen: 3,
+		Bound: fmt.Sprintf("every sentence of G with <=%d deviations x every identifier position x each of %d reserved words", k, len(words))},
+		func(c *explore.Ctx) {
+			root := grammar.Roots[c.ChooseFree(len(grammar.Roots))]
+			sent := grammar.Derive(c, root)
+			en := specificEntry(sent.Kind)
+			if en == "" {
+				en = "ParseStatement"
+			}
+			e := EntryByName(en)
+			c.Input(sent.Text())
+			parts := make([]string, len(sent.Src))
+			for i, t := range sent.Src {
+				parts[i] = t.Text
+			}
+			for i, t := range sent.Src {
+				if t.Class != grammar.ID {
+					continue
+				}
+				for _, w := range words {
+					parts[i] = w
+					var b strings.Builder
+					for j, u := range sent.Src {
+						b.WriteString(parts[j])
+						if j+1 < len(sent.Src) && !u.NoGap {
+							b.WriteByte(' ')
+						}
+					}
+					c.Count("edited_inputs", 1)
+					body(c, e, b.String())
+				}
+				parts[i] = t.Text
+			}
+			c.OutcomeStr(sent.Text())
+		})
+}
 
 // checkTokensKept is C02's oracle for an arbitrary accepted input (no grammar sentence at hand): the
 // significant tokens of SQL() must be those of the input, in the same order, after removing on both
